@@ -438,6 +438,13 @@ def check_string_measure_agreement(rep, g, fn, outs, G):
             cc = c
             while cc[0] == 'un':
                 cc = cc[2]
+            if cc[0] == 'bin' and cc[1] in OPSET and loop_m is None:
+                # the same exit test spelled with comparison operators: `count < target` / `count > target` / `count == target`
+                a, b = strip_view(ex, cc[2]), strip_view(ex, cc[3])
+                if b == tl and measured_string(ex, a) is not None:
+                    loop_m = a
+                elif a == tl and measured_string(ex, b) is not None:
+                    loop_m = b
             if cc[0] == 'bin' and cc[1] in OPSET:
                 for side in (cc[2], cc[3]):
                     ms = measured_string(ex, side)
